@@ -214,6 +214,11 @@ class Harness(object):
         except Exception:
             pass
         try:
+            from pony.orm import core
+            core.local.db_context_counter = 0       # cleanup only (a failing __exit__ may leave the nesting counter set)
+        except Exception:
+            pass
+        try:
             self.db.disconnect()
         except Exception:
             pass
@@ -376,7 +381,54 @@ class Harness(object):
                 self.bump('unexpected_write_failure_nonfatal')
             if 'STRICT' in self.props:
                 raise Fail('STRICT', '%s failed unexpectedly with %s: %s' % (what, name, msg[:300]))
+        if what == 'flush' and self.program.get('after_failed_flush') == 'commit' and self.is_fatal(e) and self.in_session:
+            self.commit_after_failed_flush(e)
+            return
         self.fatal_rollback(e, what)
+
+    def commit_after_failed_flush(self, e):
+        """The program caught the error of an explicit flush() and goes on to commit() without rolling back first.
+        Whatever commit() does then (fail again, or succeed), the database must hold either nothing of this transaction
+        or all of it - never the part that happened to be written before the failing statement."""
+        from pony.orm import commit, rollback
+        self.bump('commit_after_failed_flush')
+        try:
+            commit()
+            outcome = 'commit() succeeded'
+        except Exception as e2:
+            outcome = 'commit() raised %s' % type(e2).__name__
+        try:
+            rollback()
+        except Exception:
+            pass
+        base, full = self.model.committed, self.model.cur
+        first = None
+        for name, state in (('nothing', base), ('everything', full)):
+            self.model.committed = state
+            try:
+                self.check_database('after flush() failed with %s, the program caught it and called commit(): %s'
+                                    % (type(e).__name__, outcome))
+                break
+            except Fail as f:
+                first = first or f
+        else:
+            self.model.committed = base
+            prop = next((p for p in ('C14', 'C09', 'C16', 'C13', 'C15') if p in self.primary), 'C09')
+            raise Fail(prop, 'the database holds a part of the transaction: %s' % first.msg)
+        if self.model.committed is base:
+            self.model.rollback()
+        else:
+            self.model.commit()
+        self.pobj = {}
+        self.created = set()
+        self.doomed = False
+        self.maybe_flushed = False
+        self.ghost_pks = set()
+        self.failed_calls = 0
+        self.dirty = False
+        self.window_dirty = set()
+        self.window_deleted = 0
+        self.window_tag = False
 
     # ------------------------------------------------------------------ public-API snapshot (C13)
     def snapshot(self, depth):
@@ -1837,8 +1889,10 @@ def programs(spec_strategy=None, max_sessions=3, max_ops=10, weights=None):
         'ops': st.lists(create, min_size=2, max_size=7),
         'end': st.just('commit'),
     })
-    return st.builds(lambda spec, s0, rest, snap: {'spec': spec, 'sessions': [s0] + rest, 'snap': snap},
-                     spec_strategy, setup, st.lists(session, min_size=1, max_size=max_sessions), st.integers(0, 2))
+    return st.builds(lambda spec, s0, rest, snap, aff: dict({'spec': spec, 'sessions': [s0] + rest, 'snap': snap},
+                                                             **({'after_failed_flush': aff} if aff else {})),
+                     spec_strategy, setup, st.lists(session, min_size=1, max_size=max_sessions), st.integers(0, 2),
+                     st.sampled_from([None, None, 'commit']))
 
 
 
@@ -1902,6 +1956,7 @@ def hub_programs(max_sessions=2, max_ops=8, weights=None, keys=True):
     setup = st.builds(lambda hubs, children: {'preload': False, 'ops': hubs + children, 'end': 'commit'},
                       st.lists(hub, min_size=1, max_size=2),
                       st.lists(create.map(lambda o: [o[0], o[1] or 1] + o[2:]), min_size=2, max_size=7))
-    return st.builds(lambda spec, s0, rest, snap: {'spec': spec, 'sessions': [s0] + rest, 'snap': snap},
+    return st.builds(lambda spec, s0, rest, snap, aff: dict({'spec': spec, 'sessions': [s0] + rest, 'snap': snap},
+                                                             **({'after_failed_flush': aff} if aff else {})),
                      modelspec.hub_specs(keys=keys), setup, st.lists(session, min_size=1, max_size=max_sessions),
-                     st.integers(0, 2))
+                     st.integers(0, 2), st.sampled_from([None, None, 'commit']))
